@@ -151,14 +151,17 @@ def run(ctx, rep):
                witness=ctx.path([esc[0], g.excexit]) if esc else None)
         if forks:
             # child branch: every path ends in os._exit
-            tests = [n for n in g.live if n.kind == "test" and "pid" in A.src(n.ast) and "0" in A.src(n.ast)]
+            # partial evaluation with the fork() result bound to 0 (the child)
             exits = [n for n in g.live if n.ast is not None and n.kind == "stmt" and A.find_calls(n.ast, "os._exit")]
-            okc = bool(tests) and bool(exits)
+            fk = forks[0]
+            pv = fk.ast.targets[0].id if isinstance(fk.ast, ast.Assign) and isinstance(fk.ast.targets[0], ast.Name) else None
+            okc = pv is not None and bool(exits)
             bad = None
             if okc:
-                for s, l in tests[0].succ:
-                    if l == "true":
-                        bad = Q.find_path(s, [g.exit, g.excexit], avoid=exits, skip_first=False)
+                vok = Q.valuation_edges(Q.var_const_decider(ctx.try_fold, pv, 0))
+                ex_ids = {x.id for x in exits}
+                bad = Q.find_path_ef([fk], lambda x: x is g.exit or x is g.excexit,
+                                     lambda a, b, l: vok(a, b, l) and b.id not in ex_ids and not (a is fk and l == "exc"))
                 okc = bad is None
             rep.ob("R16.1", "%s: the forked child never returns into the accept loop" % c.name, okc,
                    "every path of the child branch ends in os._exit()" if okc else
